@@ -226,6 +226,18 @@ class DTCWTInverse(nn.Module):
         mode = mode_to_int(self.mode)
         _, _, h_dim, w_dim = get_dimensions6(
             self.o_dim, self.ri_dim)
+        if low is None or low.shape == torch.Size([]):
+            # A missing lowpass is a lowpass of zeros. It is twice the size of
+            # the coarsest bandpass, which then has to be there
+            s = highs[-1]
+            if s is None or s.shape == torch.Size([]):
+                raise ValueError("Cannot infer the size of a missing lowpass "
+                                 "when the coarsest bandpass is missing too")
+            n_dim, c_dim = [d for d in range(6) if d != self.o_dim % 6 and
+                            d != self.ri_dim % 6][:2]
+            low = torch.zeros(s.shape[n_dim], s.shape[c_dim],
+                              2*s.shape[h_dim], 2*s.shape[w_dim],
+                              dtype=s.dtype, device=s.device)
         for j, s in zip(range(J-1, 0, -1), highs[1:][::-1]):
             if s is not None and s.shape != torch.Size([]):
                 assert s.shape[self.o_dim] == 6, "Inverse transform must " \
